@@ -138,35 +138,20 @@ func NewReadOnly(backing io.ReaderAt, idx index.Index, opts ...carv2.Option) (*R
 }
 
 func readVersion(at io.ReaderAt, opts ...carv2.Option) (uint64, error) {
-	var rr io.Reader
-	switch r := at.(type) {
-	case io.Reader:
-		rr = r
-	default:
-		var err error
-		rr, err = internalio.NewOffsetReadSeeker(r, 0)
-		if err != nil {
-			return 0, err
-		}
+	// The backing is an io.ReaderAt: read it through ReadAt, from its start. It may happen to have a
+	// seek position as well (an *os.File or a bytes.Reader the caller has already read from); that
+	// position says nothing about where the CAR begins, and it is not ours to move.
+	rr, err := internalio.NewOffsetReadSeeker(at, 0)
+	if err != nil {
+		return 0, err
 	}
 	return carv2.ReadVersion(rr, opts...)
 }
 
 func generateIndex(at io.ReaderAt, opts ...carv2.Option) (index.Index, error) {
-	var rs io.ReadSeeker
-	switch r := at.(type) {
-	case io.ReadSeeker:
-		rs = r
-		// The version may have been read from the given io.ReaderAt; therefore move back to the begining.
-		if _, err := rs.Seek(0, io.SeekStart); err != nil {
-			return nil, err
-		}
-	default:
-		var err error
-		rs, err = internalio.NewOffsetReadSeeker(r, 0)
-		if err != nil {
-			return nil, err
-		}
+	rs, err := internalio.NewOffsetReadSeeker(at, 0)
+	if err != nil {
+		return nil, err
 	}
 
 	// Note, we do not set any write options so that all write options fall back onto defaults.
